@@ -665,4 +665,77 @@ example : (match groupEffect ⟨1800, false, false, 0⟩ exTsParents 7 exTs 0 [0
     | _ => []) = [(3, 1250004600)] := by decide
 example : countTs exTs 1250005000 = 3 := by decide
 
+theorem exTs_timeline : TsTimeline exTs := by
+  refine ⟨by unfold TsRegime; decide, by unfold TsSorted; decide, ?_⟩
+  intro k c h
+  match k with
+  | 0 => simp [exTs] at h; subst h; rfl
+  | 1 => simp [exTs] at h; subst h; rfl
+  | 2 => simp [exTs] at h; subst h; rfl
+  | k + 3 => simp [exTs] at h
+
+/-- every hypothesis of `time_travel_ts` is met by this history at `t = 1250005000`: the conclusion is the single
+    update of version 3 -/
+example : ∃ e, groupEffect ⟨1800, false, false, 0⟩ exTsParents 7 exTs 0 [0] = .ok (some e) ∧
+    e.updates.filter (fun u => decide (u.index = 0 ∧ u.ts ≤ 1250005000)) =
+      (versionRange 2 3).filterMap (fun k => exTs[k]?.map (fun c => c.update 0)) := by
+  have h := time_travel_ts ⟨1800, false, false, 0⟩ (by decide) exTsParents 7 exTs exTs_timeline 0 [0] (by decide)
+    ⟨11, true, 1250001000, none, [(7, false)]⟩ rfl rfl (by unfold ParentTs; decide)
+    ⟨2, 11, 1, 1250001005, none, 2, 2, true, false⟩ (by decide)
+    (by
+      intro k c h1 _ h3
+      match k with
+      | 0 => simp at h1
+      | 1 => simp at h1
+      | 2 => simp [exTs] at h3; subst h3; rfl
+      | k + 3 => simp [exTs] at h3)
+    1250005000 (by decide) (by
+      show ParentTs _ ∧ _
+      exact ⟨by unfold ParentTs; decide, by decide⟩) 0 (by simp)
+  obtain ⟨e, he, _, _, hu⟩ := h
+  refine ⟨e, he, ?_⟩
+  have hc : countTs exTs 1250005000 = 3 := by decide
+  rw [hc] at hu
+  exact hu
+
+theorem exCl_timeline : Timeline exCl := by
+  refine ⟨?_, by unfold CommitSorted; decide, ?_⟩
+  · intro c hc
+    simp only [exCl, List.mem_cons, List.not_mem_nil, or_false] at hc
+    rcases hc with rfl | rfl | rfl
+    · exact ⟨1400000000, rfl, by decide⟩
+    · exact ⟨1400000100, rfl, by decide⟩
+    · exact ⟨1400000300, rfl, by decide⟩
+  · intro k c h
+    match k with
+    | 0 => simp [exCl] at h; subst h; rfl
+    | 1 => simp [exCl] at h; subst h; rfl
+    | 2 => simp [exCl] at h; subst h; rfl
+    | k + 3 => simp [exCl] at h
+
+/-- every hypothesis of `time_travel` (commit-time regime) is met by `exCl` under the first way version at
+    `t = 1400000200`: the way shows version 1 at its commit, and exactly the update of version 2 up to `t` -/
+example : ∃ e, groupEffect ⟨1800, false, false, 0⟩ exParents 7 exCl 0 [0] = .ok (some e) ∧
+    e.updates.filter (fun u => decide (u.index = 0 ∧ u.ts ≤ 1400000200)) =
+      (versionRange 1 2).filterMap (fun k => exCl[k]?.map (fun c => c.update 0)) := by
+  have h := time_travel ⟨1800, false, false, 0⟩ exParents 7 exCl exCl_timeline 0 [0] (by decide)
+    ⟨10, true, 1400000050, some 1400000050, [(7, false)]⟩ rfl rfl 1400000050 ⟨rfl, by decide⟩
+    ⟨1, 10, 0, 1400000000, some 1400000000, 1, 1, true, false⟩ (by decide)
+    (by
+      intro k c _ _ h3
+      match k with
+      | 0 => simp [exCl] at h3; subst h3; rfl
+      | 1 => simp [exCl] at h3; subst h3; rfl
+      | 2 => simp [exCl] at h3; subst h3; rfl
+      | k + 3 => simp [exCl] at h3)
+    1400000200 (by decide) (by
+      show ∃ N, ParentCommit _ N ∧ _
+      exact ⟨1400000300, ⟨rfl, by decide⟩, by decide⟩) 0 (by simp)
+  obtain ⟨e, he, _, hu⟩ := h
+  refine ⟨e, he, ?_⟩
+  have h1 : countAt exCl 1400000050 = 1 := by decide
+  have h2 : countAt exCl 1400000200 = 2 := by decide
+  rw [h1, h2] at hu
+  exact hu
+
 end OsmVerif.Props.C11
